@@ -481,7 +481,7 @@ class Parser:
         to a command, or the name of an existing routine, it's defining a new
         routine and not a variable.
         """
-        if self._context.has_routine(str(self._current_token)):
+        if self._context.has_routine(self._current_token.content):
             return True
         if self._current_token.token_type.is_executable():
             return True
@@ -496,7 +496,7 @@ class Parser:
         """
         value = self._current_literal()
         if value is None:
-            inner_macro = self._context.get_macro(str(self._current_token))
+            inner_macro = self._context.get_macro(self._current_token.content)
             if inner_macro.undefined:
                 return self.token_error('Macro needs constant, got "{}"')
             value = inner_macro.value
@@ -527,6 +527,8 @@ class Parser:
         The parameter declarations for the routine are not included in the
         generated code. Declarations are used only at compile time.
         """
+        if not self._current_token.is_a(TokenTypes.NAME):
+            return self.token_error('Expected parameter name, got "{}"')
         name = str(self._current_token)
         routine.add_param(name)
         self._context.add_variable(name)
@@ -562,7 +564,9 @@ class Parser:
             bracketed = True
         else:
             bracketed = False
-        routine = self._context.get_routine(str(self._current_token))
+        # Look up what the script says: a token that has no text of its own
+        # (end of input, a comparison) prints as the name of its class.
+        routine = self._context.get_routine(self._current_token.content)
         if routine.undefined:
             return self.token_error('Unknown name: "{}"')
 
